@@ -84,6 +84,7 @@ var hashioImpl = map[string]core.Adapter{
 				if n, err := w.Write([]byte(c)); err != nil || n != len(c) {
 					return "short-write"
 				}
+				_, _ = h.Sum(nil), h.Size() // polling a partial digest must not disturb the final one
 			}
 		case "wn":
 			w, hs, err := hashio.NewHasherWriters(names, &sink)
@@ -94,6 +95,9 @@ var hashioImpl = map[string]core.Adapter{
 			for _, c := range chunks {
 				if n, err := w.Write([]byte(c)); err != nil || n != len(c) {
 					return "short-write"
+				}
+				for _, h := range hs {
+					_, _ = h.Sum(nil), h.Size()
 				}
 			}
 		case "r1", "rn":
@@ -121,6 +125,9 @@ var hashioImpl = map[string]core.Adapter{
 					return "short-read"
 				}
 				sink.Write(buf)
+				for _, h := range hashers {
+					_, _ = h.Sum(nil), h.Size()
+				}
 			}
 		}
 		var xs []string
